@@ -10,6 +10,7 @@ the test passed.
 """
 from __future__ import annotations
 
+import copy
 import decimal
 import http
 import os
@@ -157,17 +158,22 @@ class _AssertCounter(cst.CSTVisitor):
         self.count += 1
 
 
-def e2e(value, env: int) -> bool:
+def e2e(value, env: int, mutate=None) -> bool:
     """env 0: no seed, no raising statement; 1: a seed is exported (``sut_uses_random``);
-    2: the test ends with a statement raising an exception (``no_xfail``: wrapped in pytest.raises)."""
+    2: the test ends with a statement raising an exception (``no_xfail``: wrapped in pytest.raises).
+    ``mutate``: optional in-place change of the live object made *after* the observation (what a later
+    statement of the test does); the exported test still re-obtains the state at observation time."""
     config.configuration.module_name = MODULE
     sut.VALUES.clear()
-    sut.VALUES[0] = value
+    sut.VALUES[0] = copy.deepcopy(value) if mutate is not None else value
     trace = at.AssertionTrace()
     try:
         _OBSERVER._check_value("var_0", value, 0, trace, depth=0, max_depth=1)  # noqa: SLF001
     except Exception as e:  # noqa: BLE001
         return fail(f"_check_value({value!r}) raised {type(e).__name__}: {e}")
+    if mutate is not None:
+        mutate(value)
+        value = sut.VALUES[0]
     assertions = list(trace.get_assertions(0))
     if not assertions:
         return fail(f"no assertion decided for {value!r}")
@@ -210,3 +216,67 @@ def e2e(value, env: int) -> bool:
     finally:
         random.Random.seed = saved_seed
         shutil.rmtree(out_dir, ignore_errors=True)
+
+
+# ------------------------------------------------------------------ two-step histories (snapshot semantics)
+def mk_nested(i: int):
+    """Assertable values with a mutable container inside a container (7: a flat one; 8, 9: a public
+    field of an object, asserted through the observer's one recursion step)."""
+    table = (
+        lambda: [[0, 0], [0, 0]], lambda: {"dirty": []}, lambda: [{"k": 1}], lambda: ([1], "x"), lambda: {"a": {1, 2}},
+        lambda: [[[1]]], lambda: {"m": {"n": [None]}}, lambda: [1, 2],
+        lambda: sut.Plain([[0, 0]]), lambda: sut.Plain({"tags": []}),
+    )
+    return pick(table, i)()
+
+
+N_NESTED = 10
+
+
+def _containers(value, depth=0):
+    """(depth, container) for every mutable builtin container reachable through containers/public fields."""
+    if isinstance(value, sut.Plain):
+        yield from _containers(value.x, depth)
+        return
+    if isinstance(value, (list, set, dict)):
+        yield depth, value
+    if isinstance(value, dict):
+        children = list(value.values())
+    elif isinstance(value, (list, tuple, set)):
+        children = list(value)
+    else:
+        children = []
+    for child in children:
+        yield from _containers(child, depth + 1)
+
+
+def _change(container):
+    if isinstance(container, list):
+        if container and isinstance(container[0], int):
+            container[0] = -3  # rows[y][x] = v
+        else:
+            container.append(99)
+    elif isinstance(container, set):
+        container.add(99)
+    else:
+        container["new"] = 99
+
+
+def mutator(where: int):
+    """0: no later change; 1: the outermost container; 2: the first inner container; 3: the innermost one."""
+    def mutate(value):
+        found = sorted(_containers(value), key=lambda dc: dc[0])
+        if not found:
+            return
+        if where == 1:
+            _change(found[0][1])
+        elif where == 2:
+            inner = [c for d, c in found if d > found[0][0]]
+            _change(inner[0] if inner else found[0][1])
+        else:
+            _change(found[-1][1])
+    return mutate if where else (lambda value: None)
+
+
+def e2e_history(i: int, where: int, env: int) -> bool:
+    return e2e(mk_nested(i), env, mutator(where))
